@@ -857,7 +857,9 @@ pub fn exec(s: &Script, st: &mut Stats) -> Result<RunInfo, Violation> {
                     while b <= total {
                         let ops = vec![vec![m.len() as i64, b as i64]];
                         let r = run_family(&ops, st)?;
-                        compare(base.as_ref().unwrap(), &r, format!("first-call budget {}", b))?;
+                        if clauses & CL_C07 != 0 {
+                            compare(base.as_ref().unwrap(), &r, format!("first-call budget {}", b))?;
+                        }
                         hh.u(r.hash);
                         if r.suspensions > 0 {
                             nontrivial = true;
@@ -872,7 +874,9 @@ pub fn exec(s: &Script, st: &mut Stats) -> Result<RunInfo, Violation> {
                     let ncalls = base.as_ref().unwrap().out.len() as i64 / b + 2;
                     let ops: Vec<Vec<i64>> = (0..ncalls).map(|i| vec![if i == 0 { m.len() as i64 } else { 0 }, b]).collect();
                     let r = run_family(&ops, st)?;
-                    compare(base.as_ref().unwrap(), &r, format!("constant budget {}", b))?;
+                    if clauses & CL_C07 != 0 {
+                        compare(base.as_ref().unwrap(), &r, format!("constant budget {}", b))?;
+                    }
                     runs.push(r);
                 }
                 _ => {}
